@@ -60,15 +60,17 @@ KINDS = {
     "bed6": ["str", "int", "int", "str", "int", "strand"],
     "vcf": ["str", "pos", "str", "str", "str", "str", "str", "str"],
     "sam": ["str", "int", "str", "int", "int", "str", "str", "int", "int", "str", "str", "extra"],
+    # VCF with declared INFO keys: the INFO column is a nested (lazy) table; it is observed through its DP key (virtual field 8)
+    "vcfi": ["str", "pos", "str", "str", "str", "str", "str", "skip", "int"],
     "fastq": ["str", "str", "qual"],
     "fasta2": ["str", "str"],
     "bam": ["str", "str", "int", "int", "int", "str", "list", "str", "list"],
 }
-NAMES = dict(G.FIELD_NAMES, bam=["chromosome", "name", "flag", "position", "mapq", "cigar_op", "cigar_length", "sequence", "quality"])
+NAMES = dict(G.FIELD_NAMES, vcfi=G.FIELD_NAMES["vcf"] + ["info.DP"], bam=["chromosome", "name", "flag", "position", "mapq", "cigar_op", "cigar_length", "sequence", "quality"])
 MODEL_FMTS = ("bed", "bed6", "vcf", "sam", "fastq", "fasta2", "bam")
-REPLACEABLE = {"bed": [0, 1, 2], "bed6": [0, 1, 2, 3], "vcf": [0, 1, 2, 3, 4, 5, 6], "sam": [0, 1, 2, 3, 4, 5, 6, 7, 8, 9, 10],
+REPLACEABLE = {"bed": [0, 1, 2], "bed6": [0, 1, 2, 3], "vcf": [0, 1, 2, 3, 4, 5, 6], "vcfi": [0, 1, 2, 3, 4, 5, 6], "sam": [0, 1, 2, 3, 4, 5, 6, 7, 8, 9, 10],
                "fastq": [0, 1], "fasta2": [0, 1], "bam": []}
-SEQID = {"bed": [0], "bed6": [0, 3], "vcf": [0], "sam": [0, 2], "fastq": [0], "fasta2": [0], "bam": []}
+SEQID = {"bed": [0], "bed6": [0, 3], "vcf": [0], "vcfi": [0], "sam": [0, 2], "fastq": [0], "fasta2": [0], "bam": []}
 
 
 def _int_text(rng, canonical, lo=0, hi=3000):
@@ -86,13 +88,17 @@ def gen_row(fmt, rng, canonical, shape):
         if fmt == "bed6":
             t += [nm(rng), _int_text(rng, canonical, 0, 1000), rng.choice("+-.")]
         return "\t".join(t) + "\n", t
-    if fmt == "vcf":
+    if fmt in ("vcf", "vcfi"):
         t = ["chr" + nm(rng, 2), _int_text(rng, canonical, 1), rng.choice([".", "rs" + nm(rng, 4)]), sq(rng, 3).upper(),
              rng.choice(["A", "T", "C,G", "."]), rng.choice([".", "29", "1e3"]), rng.choice([".", "PASS", "q10;s50"]),
-             rng.choice([".", "DP=4;AF=0.5", "NS=3"])]
+             rng.choice([".", "DP=4;AF=0.5", "NS=3"] if fmt == "vcf" else [".", "DP=4;AF=0.5", "DB;DP=7", "AF=0.25", "DP=12", "DB"])]
         extra = []
         if shape["samples"] >= 0:
             extra = ["GT"] + [rng.choice(["0|1", "1/1", "./."]) for _ in range(shape["samples"])]
+        if fmt == "vcfi":
+            import re as _re
+            m = _re.search(r"(?:^|;)DP=(\d+)", t[7])
+            return "\t".join(t + extra) + "\n", t + [str(int(m.group(1))) if m else "0"]
         return "\t".join(t + extra) + "\n", t
     if fmt == "sam":
         s = sq(rng, 7)
@@ -115,6 +121,8 @@ def gen_row(fmt, rng, canonical, shape):
 def _val(kind, text):
     if kind in ("int", "pos"):
         return str(int(text))
+    if kind == "skip":
+        return ""
     return text
 
 
@@ -194,7 +202,7 @@ def cases(tier, rng):
     big = tier in ("thorough", "widen")
     per = {"quick": 400, "thorough": 4000, "widen": 1500}[tier]
     L = 8 if big else 5
-    fmts = ["bed", "bed6", "vcf", "sam", "fastq", "fasta2", "bam"]
+    fmts = ["bed", "bed6", "vcf", "sam", "fastq", "fasta2", "bam", "vcfi"]
     # fixed scenario family: cache / overlay interleavings around one concatenate
     for fmt in fmts:
         for canonical in (True, False):
@@ -298,7 +306,7 @@ def oracle(c):
                 out.append({"num": len(r)})
         elif k == "row":
             i = o["i"]
-            out.append({"rows": [list(t[i])]} if -len(t) <= i < len(t) else "err")
+            out.append({"rows": [_blank(fmt, t[i])]} if -len(t) <= i < len(t) else "err")
         elif k == "cat":
             b = o["b"]
             texts[a] = [list(r) for r in texts[a]] + [list(r) for r in texts[b]]
@@ -319,15 +327,25 @@ def oracle(c):
             over[dst] = set(over[a]) | {f for f, _ in kw}
             out.append("unit")
         elif k == "tolist":
-            out.append({"rows": [list(r) for r in t]})
+            out.append({"rows": [_blank(fmt, r) for r in t]})
         elif k == "write":
             # (BAM has no eager writer; the records of an unmodified BAM table are its source bytes — known finding when eager fails)
             out.append("err" if fmt == "bam" else {"bytes": _header(c) + "".join(_dump_row(fmt, r) for r in t)})
-            lazy_w[str(step)] = [[v if f in over[a] else tx for f, (tx, v) in enumerate(zip(trow, vrow))]
+            nW = 8 if fmt == "vcfi" else nF
+            lazy_w[str(step)] = [[v if f in over[a] else tx for f, (tx, v) in enumerate(zip(trow, vrow))][:nW]
                                  for trow, vrow in zip(texts[a], t)]
             if not over[a]:     # nothing replaced anywhere: the lazy table writes the records' original bytes (C04)
                 lazy_raw[str(step)] = _header(c) + "".join(raws[a])
     return {"spec": out, "lazy_w": lazy_w, "lazy_raw": lazy_raw}
+
+
+def _blank(fmt, row):
+    """rows are observed through the entry type's plain fields; the nested INFO table and its virtual DP field only through `get`"""
+    row = list(row)
+    if fmt == "vcfi":
+        row[7] = ""
+        row[8] = ""
+    return row
 
 
 def agree_spec(c, s, exp):
@@ -370,8 +388,20 @@ def _spell(x, kind=None):
     return str(x)
 
 
+def _getf(obj, name):
+    for part in name.split("."):
+        obj = getattr(obj, part)
+    return obj
+
+
+def _row_obs(e, names, kinds):
+    return [("" if (kd == "skip" or "." in nm) else _spell(getattr(e, nm), kd)) for nm, kd in zip(names, kinds)]
+
+
 def _col(x, kind):
     from bionumpy.encoded_array import EncodedArray
+    if kind == "skip":
+        return ["" for _ in range(len(x))]
     if isinstance(x, EncodedArray) and x.ndim == 1:
         return [ch for ch in x.to_string()]
     return [_spell(v, kind) for v in x]
@@ -415,14 +445,14 @@ def _run_mode(c, lazy, paths, d):
             if k == "len":
                 obs = {"num": len(t)}
             elif k == "get":
-                obs = {"col": _col(getattr(t, names[o["f"]]), kinds[o["f"]])}
+                obs = {"col": _col(_getf(t, names[o["f"]]), kinds[o["f"]])}
             elif k == "index":
                 r = t[G._np_idx(o["ix"])]
                 regs[o["d"]] = r
                 obs = {"num": len(r)}
             elif k == "row":
                 e = t[o["i"]]
-                obs = {"rows": [[_spell(getattr(e, nm), kd) for nm, kd in zip(names, kinds)]]}
+                obs = {"rows": [_row_obs(e, names, kinds)]}
             elif k == "cat":
                 r = np.concatenate([t, regs[o["b"]]])
                 regs[a] = r
@@ -434,7 +464,7 @@ def _run_mode(c, lazy, paths, d):
                 setattr(t, names[o["f"]], _new_col(fmt, o["f"], o["c"]))
                 obs = "unit"
             elif k == "tolist":
-                obs = {"rows": [[_spell(getattr(e, nm), kd) for nm, kd in zip(names, kinds)] for e in t.tolist()]}
+                obs = {"rows": [_row_obs(e, names, kinds) for e in t.tolist()]}
             elif k == "write":
                 out = os.path.join(d, f"out{int(lazy)}{G.FORMATS[fmt][0]}")
                 with bnp.open(out, "w", buffer_type=bt) as w:
